@@ -259,6 +259,33 @@ func classifyExit(p *Prog, ifi *ssa.If, onTrue bool, ph *ssa.Phi) string {
 		}
 		break
 	}
+	// visited-set test: `if seen[v]` on a map keyed by the carried value bounds the walk
+	// by the number of distinct sectors
+	isVisited := func(v ssa.Value) bool {
+		if e, ok := v.(*ssa.Extract); ok {
+			v = e.Tuple
+		}
+		l, ok := v.(*ssa.Lookup)
+		if !ok {
+			return false
+		}
+		if _, isMap := l.X.Type().Underlying().(*types.Map); !isMap {
+			return false
+		}
+		idx := stripIntConv(l.Index)
+		if idx == ssa.Value(ph) {
+			return true
+		}
+		for _, e := range ph.Edges {
+			if stripIntConv(e) == idx {
+				return true
+			}
+		}
+		return false
+	}
+	if isVisited(cond) {
+		return "bound"
+	}
 	bo, ok := cond.(*ssa.BinOp)
 	if !ok {
 		return "other"
